@@ -265,7 +265,8 @@ def solve (L : NLits α) (S : Setup α) (ode jac : Nat → α → Array α → A
     if S.nind3 > 0 then
       scal := (Array.range n).map fun i =>
         if S.nind1 + S.nind2 ≤ i ∧ i < S.nind1 + S.nind2 + S.nind3 then g scal i / (hhfac * hhfac) else g scal i
-    let xph := x + h
+    -- the landing step ends at xend itself
+    let xph := if last then xend else x + h
     if first then
       z1 := zeroV; z2 := zeroV; z3 := zeroV; f1 := zeroV; f2 := zeroV; f3 := zeroV
     else
